@@ -14,8 +14,13 @@ RULE = ("histories: a fully signed transaction (generator of C05: all standard p
         "BTC/LTC/BCH/BTG/GRS and others) followed by a sequence of mutations applied to the live object - single-bit flips of version, lock "
         "time, every outpoint hash/index, every sequence, every output amount/script, every recorded spent amount/script; insertion, removal "
         "and reordering of inputs (with their spent outputs) and of outputs; swapping unlocking data between inputs; dropping a spent output "
-        "- each followed by is_solution_ok for every input and bad_solution_count, with undo or accumulation. Distinct by (puzzle kind, "
-        "signature version, hash type, mutated field class); both outcomes (stays valid / becomes invalid) must be seen for every hash type.")
+        "- each followed by is_solution_ok for every input and bad_solution_count, with undo or accumulation. Three histories of every "
+        "shard are stratified (each core network x each of the six hash types once per run: at least two inputs and outputs, a legacy "
+        "and a witness input on the non-fork coins, every mutation of the list applied with undo) so that the commitment table of the "
+        "statement - signature version x hash type x field class x outcome, counters cell:* - is reached whatever the seed; the other "
+        "histories are random and also sign different inputs, or the signatures of one multisig input, with different hash types. "
+        "Distinct by (puzzle kind, signature version, hash type, mutated field class); both outcomes (stays valid / becomes invalid) "
+        "must be seen for every hash type, and every cell of REQUIRED_CELLS must be seen with the outcome the statement gives it.")
 ASSUMPTIONS = [
     "the expected verdict for a mutated transaction is the reference interpreter's verdict on the same bytes (vmon/refs/script.py + refs/sighash.py); "
     "'committed' is defined as: the reference digest of the input's signatures changes",
@@ -29,6 +34,63 @@ EXPLANATION = "per-input verdicts of the live object == reference verdicts == ve
 TIMEOUT = {"quick": 900, "thorough": 4 * 3600}
 
 HT_NAMES = {None: "all", 1: "all", 2: "none", 3: "single", 0x81: "all+acp", 0x82: "none+acp", 0x83: "single+acp"}
+SIX = ("all", "none", "single", "all+acp", "none+acp", "single+acp")
+STRATA = (1, 2, 3, 0x81, 0x82, 0x83)
+MUTATION_CLASSES = ("version", "lock_time", "outpoint_hash", "outpoint_index", "sequence", "out_amount", "out_script", "out_script_append",
+                    "spent_amount", "spent_script", "unlock_script", "add_output", "del_output", "swap_outputs", "add_input", "del_input",
+                    "swap_inputs", "swap_unlock", "drop_unspent", "truncate_unspents")
+INPUT_FIELDS = ("outpoint_hash", "outpoint_index", "sequence", "spent_amount", "spent_script", "unlock_script")
+OUTPUT_FIELDS = ("out_amount", "out_script", "out_script_append")
+PUZZLE_KINDS = sorted(set(c05.KINDS))
+
+
+def stratum_for(shard, k):
+    """histories 0..2 of every shard are stratified: shards 0-7 (one per core network) take ALL/NONE/SINGLE, shards 8-15 (the
+    second pass over the core networks) the ANYONECANPAY variants - every (core network, hash type) pair once per run"""
+    return STRATA[k + 3 * ((shard // 8) % 2)] if k < 3 else None
+
+
+def cell_label(cls, j, i):
+    """field class of a single-field mutation as seen from input i"""
+    if cls in ("version", "lock_time"):
+        return cls
+    if cls in INPUT_FIELDS:
+        return cls + (".own" if j == i else ".other")
+    if cls in OUTPUT_FIELDS:
+        return ("out_script" if cls == "out_script_append" else cls) + (".same" if j == i else ".diff")
+    return None
+
+
+def required_cells():
+    """the commitment table the statement spells out, as (signature version, hash type, field class, outcome) that must have been
+    observed. The outcome of every evaluation is decided by the reference interpreter; this list only says which decided outcomes
+    have to be present for the run to count (a reference that disagreed with the statement would leave a cell empty -> inconclusive)"""
+    cells = []
+    for sv in ("legacy", "witness", "forkid"):
+        amount = "valid" if sv == "legacy" else "invalid"
+        T = {
+            # SIGHASH_ALL: the statement's list, plus what lies outside every commitment
+            "all": {"invalid": ["version", "lock_time", "outpoint_hash.own", "outpoint_hash.other", "outpoint_index.own", "outpoint_index.other",
+                                "sequence.own", "sequence.other", "out_amount.same", "out_amount.diff", "out_script.same", "out_script.diff",
+                                "spent_script.own"],
+                    "valid": ["spent_amount.other", "spent_script.other", "unlock_script.other"]},
+            "none": {"invalid": ["version", "lock_time", "outpoint_hash.own", "outpoint_hash.other", "sequence.own", "spent_script.own"],
+                     "valid": ["sequence.other", "out_amount.same", "out_amount.diff", "out_script.same", "out_script.diff", "unlock_script.other"]},
+            "single": {"invalid": ["version", "lock_time", "outpoint_index.other", "sequence.own", "out_amount.same", "out_script.same"],
+                       "valid": ["sequence.other", "out_amount.diff", "out_script.diff", "unlock_script.other"]},
+            "all+acp": {"invalid": ["version", "lock_time", "outpoint_hash.own", "outpoint_index.own", "sequence.own", "out_amount.same",
+                                    "out_amount.diff", "out_script.diff", "spent_script.own"],
+                        "valid": ["outpoint_hash.other", "outpoint_index.other", "sequence.other", "spent_amount.other"]},
+            "none+acp": {"invalid": ["version", "lock_time", "outpoint_hash.own", "sequence.own", "spent_script.own"],
+                         "valid": ["outpoint_hash.other", "sequence.other", "out_amount.same", "out_amount.diff", "out_script.diff"]},
+            "single+acp": {"invalid": ["version", "lock_time", "outpoint_index.own", "sequence.own", "out_amount.same", "out_script.same"],
+                           "valid": ["outpoint_hash.other", "sequence.other", "out_amount.diff", "out_script.diff"]},
+        }
+        for ht, d in T.items():
+            for outcome, labels in d.items():
+                cells += ["cell:%s:%s:%s:%s" % (sv, ht, lab, outcome) for lab in labels]
+            cells.append("cell:%s:%s:spent_amount.own:%s" % (sv, ht, amount))
+    return cells
 
 
 def plan(tier, seed):
@@ -45,11 +107,40 @@ def flip(v, bit):
 
 
 class Tamper(c05.History):
-    def __init__(self, rec, net, netcode, rng, keys, std_flags):
+    def __init__(self, rec, net, netcode, rng, keys, std_flags, stratum=None):
         c05.History.__init__(self, rec, net, netcode, rng, keys)
         self.use_flags = self.flags if std_flags else None
         self.ref_flags = self.flags if std_flags else (RS.P2SH | RS.WITNESS)
         self.mlog = []
+        self.stratum = stratum
+        self.sign_mode = "uniform"
+        self.hash_types = []
+        self.forkcoin = self.fork[0] in ("bch", "btg")
+
+    def case(self, extra=None):
+        d = c05.History.case(self, {"sign_mode": self.sign_mode, "hash_types": list(self.hash_types), "stratum": self.stratum})
+        d.update(extra or {})
+        return d
+
+    def build(self):
+        """C05's generator; a stratified history redraws until the composition its cells need is there"""
+        for _ in range(2000):
+            c05.History.build(self)
+            if self.stratum is None or self.stratum_ok():
+                break
+        else:
+            raise RuntimeError("stratified composition not drawn")
+        if self.stratum is not None:
+            self.hash_type = self.stratum
+
+    def stratum_ok(self):
+        n_in, n_out = len(self.puzzles), len(self.tx.txs_out)
+        if not (2 <= n_in <= 3 and n_out >= 2):
+            return False
+        if self.forkcoin:
+            return True
+        low = [("w" in p.kind) for p in self.puzzles[:n_out]]      # inputs that have an output of their own index
+        return (True in low) and (False in low)
 
     # ----------------------------------------------------------------------------------------------
     def attach_sources(self):
@@ -74,7 +165,7 @@ class Tamper(c05.History):
         st, _ = observe(t2.unspents_from_db, dict(self.sources))
         rec.ev("Tx.unspents_from_db")
         kw = {} if self.use_flags is None else {"flags": self.use_flags}
-        if st != "ok" or [t2.is_solution_ok(i, **kw) for i in range(len(t2.txs_in))] != [True] * len(t2.txs_in):
+        if st != "ok" or not all(t2.is_solution_ok(i, **kw) for i in range(len(t2.txs_in))):
             rec.violation("database.honest_db_not_valid", self.case(), st, "all inputs valid")
             return
         k = self.rng.randrange(len(self.tx.txs_in))
@@ -92,28 +183,91 @@ class Tamper(c05.History):
         rec.ev("Tx.unspents_from_db(poisoned)")
         case = self.case({"poisoned_input": k, "variant": variant})
         if st != "ok":
-            rec.violation("database.poisoned_db_raises_with_ignore_missing", case, r, "unknown spent output")
-            return
-        stv, v = observe(t3.is_solution_ok, k, **kw)
-        if stv != "ok" or v is not False:
-            rec.violation("database.unknown_spent_output_reported_valid." + variant, case, v, False)
+            # refusing the database outright is one way of not reporting the input valid (the statement asks no more)
+            rec.ev("database.poisoned_lookup_refused")
+        else:
+            stv, v = observe(t3.is_solution_ok, k, **kw)
+            rec.ev("database.poisoned_input_validated")
+            if stv == "ok" and v:
+                rec.violation("database.unknown_spent_output_reported_valid." + variant, case, v, False)
         t4 = Tx.from_bin(plain)
         st, r = observe(t4.unspents_from_db, db)
-        if st == "ok" and t4.is_solution_ok(k, **kw) is not False:
-            rec.violation("database.unknown_spent_output_reported_valid.strict." + variant, case, True, False)
+        if st == "ok":
+            stv, v = observe(t4.is_solution_ok, k, **kw)
+            if stv == "ok" and v:
+                rec.violation("database.unknown_spent_output_reported_valid.strict." + variant, case, v, False)
+
+    def other_type(self, base):
+        b = base or 1
+        if self.rng.random() < 0.5:
+            return b ^ 0x80         # same base type, other ANYONECANPAY bit
+        return self.rng.choice([t for t in STRATA if t != (b & ~0x40)]) | (b & 0x40)
 
     def sign_all(self):
+        """sign everything: with one hash type (stratified histories always), or with two - split over the inputs, or over the
+        signatures of one multisig input (the rest of the transaction takes the first type)"""
+        rng = self.rng
         self.build()
         self.attach_sources()
-        keys = set()
-        for p in self.puzzles:
-            keys |= set(self.rng.sample(p.key_idx, p.m)) if p.m is not None else set(p.key_idx)
-        if not self.sign_with(keys, "dict"):
+        chosen = [set(rng.sample(p.key_idx, p.m)) if p.m is not None else set(p.key_idx) for p in self.puzzles]
+        every = set().union(*chosen)
+        n = len(self.puzzles)
+        multi = [i for i, p in enumerate(self.puzzles) if p.m is not None and p.m >= 2]
+        mode = "uniform"
+        if self.stratum is None:
+            r = rng.random()
+            if r < 0.2 and n >= 2:
+                mode = "per_input"
+            elif r < 0.4 and multi:
+                mode = "per_signature"
+        self.sign_mode = mode
+        self.hash_types = [self.hash_type]
+        if mode == "uniform":
+            ok = self.sign_with(every, "dict")
+        else:
+            second = self.other_type(self.hash_type)
+            self.hash_types.append(second)
+            if mode == "per_input":
+                first = set(rng.sample(range(n), rng.randrange(1, n)))
+                rest = set(range(n)) - first
+                ok = self.sign_with(set().union(*[chosen[i] for i in first]), "dict", idx_set=first)
+                self.hash_type = second
+                ok = ok and self.sign_with(set().union(*[chosen[i] for i in rest]), "dict", idx_set=rest)
+            else:
+                ks = sorted(chosen[rng.choice(multi)])
+                rng.shuffle(ks)
+                late = set(ks[rng.randrange(1, len(ks)):])
+                ok = self.sign_with(every - late, "dict")
+                self.hash_type = second
+                ok = ok and self.sign_with(late, "dict")
+        if not ok:
             return False
+        self.rec.ev("sign_mode:" + mode)
         self.spks = [p.spk for p in self.puzzles]
         self.amounts = [p.amount for p in self.puzzles]
         self.kinds = [p.kind for p in self.puzzles]
+        for kind in self.kinds:
+            self.rec.ev("kind:" + kind)
         return True
+
+    def label_inputs(self):
+        """signature version and hash type of every signed input, read off what the reference interpreter was asked to check
+        (fork-id coins: the fork-id bit is not part of the name). Keyed by TxIn object: structural mutations move the objects"""
+        self._keep = list(self.tx.txs_in)       # keeps the ids unique for the whole history
+        self.sv, self.ht = {}, {}
+        for ti, log in zip(self.tx.txs_in, self.last_logs):
+            types = {(e[1] & ~0x40) if self.forkcoin else e[1] for e in log or ()}
+            if len(types) == 1:
+                name = HT_NAMES.get(next(iter(types)), "other")
+            else:
+                name = "mixed" if types else "nosig"
+            self.ht[id(ti)] = name
+            witness = any(e[0] == RS.SIGVERSION_WITNESS_V0 for e in log or ())
+            self.sv[id(ti)] = "forkid" if self.forkcoin else ("witness" if witness else "legacy")
+            if name == "mixed":
+                self.rec.ev("mixed_hash_types_in_one_input")
+        if len({self.ht[id(ti)] for ti in self.tx.txs_in} - {"mixed"}) > 1:
+            self.rec.ev("inputs_of_different_hash_types")
 
     def live_verdicts(self, tx=None):
         tx = tx or self.tx
@@ -121,7 +275,7 @@ class Tamper(c05.History):
         for i in range(len(tx.txs_in)):
             kw = {} if self.use_flags is None else {"flags": self.use_flags}
             st, ok = observe(tx.is_solution_ok, i, **kw)
-            out.append(ok if st == "ok" else "EXC:%s" % type(ok).__name__)
+            out.append(bool(ok) if st == "ok" else "EXC:%s" % type(ok).__name__)     # "reported valid" = any true value
         return out
 
     def ref_verdicts(self):
@@ -131,11 +285,13 @@ class Tamper(c05.History):
                            "witness": [bytes(w) for w in i.witness]} for i in t.txs_in],
                   "outs": [{"value": o.coin_value, "script": bytes(o.script)} for o in t.txs_out]}
         out, digests = [], []
+        self.last_logs = []
         for i, ti in enumerate(ref_tx["ins"]):
             u = t.unspents[i] if i < len(t.unspents) else None
             if u is None:
                 out.append(False)
                 digests.append(None)
+                self.last_logs.append(None)
                 continue
             log = []
             chk = c05.ForkChecker(ref_tx, i, u.coin_value, self.fork)
@@ -143,6 +299,7 @@ class Tamper(c05.History):
             r = RS.result_of(RS.verify_script, ti["script"], bytes(u.script), ti["witness"], self.ref_flags, chk)
             out.append(r == "OK")
             digests.append(frozenset(e[3] for e in log))
+            self.last_logs.append(log)
         return out, digests
 
     def fresh_verdicts(self):
@@ -173,6 +330,8 @@ class Tamper(c05.History):
             M.append(("outpoint_hash:%d" % i,) + setter(ti, "previous_hash", flip_bytes(ti.previous_hash)))
             M.append(("outpoint_index:%d" % i,) + setter(ti, "previous_index", flip(ti.previous_index, rng.randrange(32))))
             M.append(("sequence:%d" % i,) + setter(ti, "sequence", flip(ti.sequence, rng.randrange(32))))
+            # unlocking data is outside every commitment: an extra leading push changes this input's own fate at most
+            M.append(("unlock_script:%d" % i,) + setter(ti, "script", b"\x00" + bytes(ti.script)))
         for j, to in enumerate(tx.txs_out):
             M.append(("out_amount:%d" % j,) + setter(to, "coin_value", flip(to.coin_value, rng.randrange(50))))
             if len(to.script):
@@ -278,9 +437,12 @@ class Tamper(c05.History):
                 stv, got = observe(tx2.is_solution_ok, i, flags=flags)
                 rec.ev("foreign_network_validation")
                 rec.ev("foreign_network.%s" % ("valid" if ref else "invalid"))
-                if stv != "ok" or got is not ref:
+                plain_on_forkid = fork[0] in ("bch", "btg") and not self.forkcoin
+                if plain_on_forkid:
+                    rec.ev("foreign_network.signature_without_fork_id_on_fork_id_coin")
+                if stv != "ok" or bool(got) is not ref:
                     rec.violation("foreign_network.%s_signature_%s_on_%s" % (
-                        self.fork[0] or "btc", "accepted" if got is True else "rejected_or_raises", fork[0] or "btc"),
+                        self.fork[0] or "btc", "accepted" if (stv == "ok" and got) else "rejected_or_raises", fork[0] or "btc"),
                         self.case({"other": code, "input": i, "hash_type_name": ht}), got, ref)
 
     # ----------------------------------------------------------------------------------------------
@@ -293,15 +455,23 @@ class Tamper(c05.History):
         if not all(v is True for v in base_live) or not all(base_ref):
             rec.violation("setup.signed_tx_not_valid", self.case(), [base_live, base_ref], "all inputs valid")
             return
-        ht = HT_NAMES.get(self.hash_type, "other")
-        self.foreign_network_check(ht)
+        self.label_inputs()
+        tx = self.tx
+        hts = "/".join(self.ht[id(ti)] for ti in tx.txs_in)
+        self.foreign_network_check(hts)
         self.database_check()
         muts = self.mutations()
         rng.shuffle(muts)
-        budget = min(len(muts), 40)
-        accumulate = rng.random() < 0.3
+        if self.stratum is not None:
+            budget, accumulate = len(muts), False       # the whole list, each step undone: the cells are per single-field change
+            rec.ev("stratified_history:%s" % HT_NAMES[self.stratum])
+        else:
+            budget, accumulate = min(len(muts), 40), rng.random() < 0.45
+        rec.ev("flags:" + ("standard" if self.use_flags is not None else "default"))
+        rec.ev("history:" + ("accumulating" if accumulate else "undoing"))
         for name, apply, undo in muts[:budget]:
             cls = name.split(":")[0]
+            target = int(name.split(":")[1]) if ":" in name else None
             usnap = self.snapshot_unlock()
             try:
                 apply()
@@ -312,46 +482,51 @@ class Tamper(c05.History):
             live = self.live_verdicts()
             ref, dig = self.ref_verdicts()
             rec.ev("Tx.is_solution_ok", len(live))
-            if len(live) > 1 and all(u is not None for u in self.tx.unspents) and len(self.tx.unspents) == len(self.tx.txs_in):
+            if len(live) > 1 and all(u is not None for u in tx.unspents) and len(tx.unspents) == len(tx.txs_in):
                 order = list(range(len(live)))
                 self.rng.shuffle(order)
                 shared = self.shared_checker_verdicts(self.ref_flags if self.use_flags is None else self.use_flags, order)
                 # shared_checker_verdicts returns verdicts indexed by input
                 if shared != live:
                     rec.violation("shared_checker_instance_differs." + cls, self.case({"mutations": list(self.mlog), "order": order}), shared, live)
-            case = self.case({"mutations": list(self.mlog), "hash_type_name": ht, "flags": "standard" if self.use_flags is not None else "default"})
-            sv_kinds = sorted({k.split(":")[-1] for k in self.kinds})
-            rec.case((self.netcode, tuple(sorted(self.kinds)), ht, cls, accumulate and len(self.mlog)), nontrivial=True)
+            case = self.case({"mutations": list(self.mlog), "hash_type_names": hts, "flags": "standard" if self.use_flags is not None else "default"})
+            rec.case((self.netcode, tuple(sorted(self.kinds)), hts, cls, accumulate and len(self.mlog)), nontrivial=True)
             same_shape = len(live) == len(base_live)
             for i, (lv, rv) in enumerate(zip(live, ref)):
-                u = self.tx.unspents[i] if i < len(self.tx.unspents) else None
+                u = tx.unspents[i] if i < len(tx.unspents) else None
                 if u is None:
                     rec.ev("missing_unspent_checked")
-                    if lv is not False:
+                    rec.ev("missing_unspent:" + ("none" if i < len(tx.unspents) else "list_too_short"))
+                    if lv is True:      # "never reported valid": a refusal by exception does not report it valid either
                         rec.violation("missing_spent_output_reported_valid", case, lv, False)
                     continue
+                ht = self.ht.get(id(tx.txs_in[i]), "unsigned")
                 rec.ev("outcome:%s:%s" % (ht, "valid" if rv else "invalid"))
+                if not accumulate and same_shape:
+                    lab = cell_label(cls, target, i)
+                    if lab is not None:
+                        rec.ev("cell:%s:%s:%s:%s" % (self.sv.get(id(tx.txs_in[i]), "unsigned"), ht, lab, "valid" if rv else "invalid"))
                 if lv is not rv:
                     direction = "accepts_tampered" if lv is True else ("rejects_untouched" if lv is False else "raises")
                     rec.violation("%s.%s.%s" % (direction, cls, ht), case, {"input": i, "pycoin": lv}, {"reference": rv})
             # digest-commitment consistency of the oracle itself (same shape only): unchanged digests + untouched own data => still valid
             if same_shape and not accumulate and cls not in ("swap_unlock", "swap_inputs", "add_input", "del_input"):
                 for i in range(len(live)):
-                    own = name in ("spent_script:%d" % i, "spent_amount:%d" % i) or cls in ("drop_unspent", "truncate_unspents")
+                    own = name in ("spent_script:%d" % i, "spent_amount:%d" % i, "unlock_script:%d" % i) or cls in ("drop_unspent", "truncate_unspents")
                     if base_dig[i] is not None and dig[i] is not None and not own:
                         if dig[i] == base_dig[i] and base_ref[i] and not ref[i]:
                             rec.violation("oracle.commitment_inconsistent.unchanged_digest_but_invalid", case, name, i)
                         if dig[i] and base_dig[i] and not (dig[i] & base_dig[i]) and ref[i]:
                             rec.violation("oracle.commitment_inconsistent.changed_digest_but_valid", case, name, i)
             # statelessness: a fresh object gives the same verdicts
-            if all(u is not None for u in self.tx.unspents) and len(self.tx.unspents) == len(self.tx.txs_in) and len(self.tx.txs_in) > 0:
+            if all(u is not None for u in tx.unspents) and len(tx.unspents) == len(tx.txs_in) and len(tx.txs_in) > 0:
                 st, fresh = observe(self.fresh_verdicts)
                 rec.ev("fresh_object_compared")
                 if st != "ok":
                     rec.violation("fresh_object.raises.%s" % type(fresh).__name__, case, fresh, live)
                 elif fresh != live:
                     rec.violation("fresh_object.verdict_differs.%s" % cls, case, {"live": live}, {"fresh": fresh})
-            st, bad = observe(self.tx.bad_solution_count, **({} if self.use_flags is None else {"flags": self.use_flags}))
+            st, bad = observe(tx.bad_solution_count, **({} if self.use_flags is None else {"flags": self.use_flags}))
             rec.ev("Tx.bad_solution_count")
             want = sum(1 for v in live if v is not True)
             if st == "ok" and bad != want:
@@ -369,42 +544,57 @@ class Tamper(c05.History):
         rec.ev("net:" + self.netcode)
 
 
-def run_shard(spec, rec):
+def history_for(rec, seed, tier, shard, k, code):
+    """the k-th history of a shard is a function of (seed, tier, shard, k) and its network alone, so a stored case re-runs exactly"""
     from pycoin.networks.registry import network_for_netcode
-    rec.require("Tx.is_solution_ok", "fresh_object_compared", "missing_unspent_checked", "foreign_network_validation", "Tx.unspents_from_db(poisoned)")
-    for ht in ("all", "none", "single", "all+acp", "none+acp", "single+acp"):
-        pass
-    keys = G.Keys(24)
+    rng = shard_rng(seed, PROPERTY, tier, shard, salt=k)
+    if not _KEYS:
+        _KEYS.append(G.Keys(24))
+    h = Tamper(rec, network_for_netcode(code), code, rng, _KEYS[0], std_flags=((k + shard) % 2 == 0), stratum=stratum_for(shard, k))
+    h.coord = [seed, tier, shard, k]
+    return h
+
+
+_KEYS = []
+
+
+def run_shard(spec, rec):
+    rec.require("Tx.is_solution_ok", "Tx.bad_solution_count", "fresh_object_compared", "revalidated_after_undo",
+                "missing_unspent_checked", "missing_unspent:none", "missing_unspent:list_too_short",
+                "foreign_network_validation", "foreign_network.valid", "foreign_network.invalid",
+                "foreign_network.signature_without_fork_id_on_fork_id_coin",
+                "Tx.unspents_from_db(poisoned)", "SolutionChecker.check_solution(shared instance)",
+                "flags:standard", "flags:default", "history:accumulating", "history:undoing",
+                "sign_mode:uniform", "sign_mode:per_input", "sign_mode:per_signature",
+                "mixed_hash_types_in_one_input", "inputs_of_different_hash_types")
+    rec.require(*["mutation:" + c for c in MUTATION_CLASSES])
+    rec.require(*["kind:" + k for k in PUZZLE_KINDS])
     core, o1, o2 = c05.networks_for_slot(spec["slot"] + spec["seed"])
-    nets = [core] * 5 + [o1]
+    nets = [core] * 6 + [o1]        # histories 0..2 (the stratified ones) are always on the shard's core network
     for k in range(spec["n"]):
         code = nets[k % len(nets)]
-        net = network_for_netcode(code)
-        rng = shard_rng(spec["seed"], PROPERTY, spec["tier"], spec["shard"], salt=k)
-        h = Tamper(rec, net, code, rng, keys, std_flags=(k % 2 == 0))
-        h.coord = [spec["seed"], spec["tier"], spec["shard"], k]
+        h = history_for(rec, spec["seed"], spec["tier"], spec["shard"], k, code)
         try:
             h.run()
         except Exception as e:
             import traceback
             rec.violation("history.crash.%s" % type(e).__name__, h.case({"tb": traceback.format_exc()[-1500:], "mutations": h.mlog}), repr(e), "no exception")
-        if k < 1:
-            rec.sample({"net": code, "puzzles": [p.brief() for p in getattr(h, "puzzles", [])], "hash_type": h.hash_type, "mutations_applied": h.mlog[:8]})
+        if k in (0, 3):
+            rec.sample({"net": code, "puzzles": [p.brief() for p in getattr(h, "puzzles", [])], "hash_types": h.hash_types, "sign_mode": h.sign_mode,
+                        "stratum": h.stratum, "mutations_applied": h.mlog[:8]})
 
 
 def post_merge_requirements():
-    """both outcomes must have been observed for each hash type (checked by the runner through rec.require in shard 0)"""
-    return ["outcome:%s:%s" % (ht, o) for ht in ("all", "none", "single", "all+acp", "none+acp", "single+acp") for o in ("valid", "invalid")]
+    """both outcomes for each hash type, and every cell of the statement's commitment table with its outcome (checked by the
+    runner on the merged counters)"""
+    return (["outcome:%s:%s" % (ht, o) for ht in SIX + ("mixed",) for o in ("valid", "invalid")]
+            + ["stratified_history:" + ht for ht in SIX] + required_cells())
 
 
 def replay_case(case, rec):
     """re-run exactly the stored history: its generator is a function of (seed, tier, shard, k)"""
-    from pycoin.networks.registry import network_for_netcode
-    keys = G.Keys(24)
-    net = network_for_netcode(case["net"])
     seed, tier, shard, k = case["coord"]
-    h = Tamper(rec, net, case["net"], shard_rng(seed, PROPERTY, tier, shard, salt=k), keys, std_flags=(k % 2 == 0))
-    h.coord = case["coord"]
+    h = history_for(rec, seed, tier, shard, k, case["net"])
     try:
         h.run()
     except Exception as e:
